@@ -6,7 +6,7 @@
 //! with tiny-std's own `thread::spawn` during start-up, never joined) owns every JoinHandle of
 //! the scenarios: it spawns, joins and drops.  Script commands (one per line):
 //!
-//!   set logalloc=0|1 logpt=0|1 watchdog=<ms>
+//!   set logalloc=0|1 logpt=0|1 watchdog=<ms> jitter=<permille> jseed=<n>
 //!   baseline                       remember heap serial / thread count / statm / maps
 //!   quiesce                        wait until only main+H are left; report what is still live
 //!   batch n= seed= conc= panic=<pct> drop=<pct> types=<bitmask>
@@ -829,6 +829,12 @@ pub fn main() -> i32 {
                 }
                 if let Some(v) = arg(line, "logpt") {
                     sched::LOG_POINTS.store(v == "1", Ordering::SeqCst);
+                }
+                if let Some(v) = arg(line, "jitter") {
+                    sched::JITTER.store(v.parse().unwrap_or(0), Ordering::SeqCst);
+                }
+                if let Some(v) = arg(line, "jseed") {
+                    sched::JITTER_RNG.store(v.parse::<u64>().unwrap_or(1) | 1, Ordering::SeqCst);
                 }
                 if let Some(v) = arg(line, "watchdog") {
                     WATCHDOG_MS.store(v.parse().unwrap_or(4000), Ordering::SeqCst);
